@@ -558,7 +558,7 @@ func c10(c *Ctx) {
 			`C10-escape-wrap ParseRegexp(`+"`"+`\UFFFFFFFF`+"`"+`, {}) => `+c10Show(`\UFFFFFFFF`, false, false)+`; ParseRegexp(`+"`"+`\x{100000041}`+"`"+`, {}) => `+c10Show(`\x{100000041}`, false, false))
 	}
 	if v.scriptFold {
-		c.Violate(`C10-foldscript: appendNamedSet adds unicode.FoldScript[name] even without case folding: \p{Greek} contains U+00B5 (MICRO SIGN, script Common) and U+2126 (OHM SIGN… script Greek's fold partner) although Fold is off`,
+		c.Violate(`C10-foldscript: appendNamedSet adds unicode.FoldScript[name] even without case folding: \p{Greek} contains U+00B5 (MICRO SIGN, script Common) and U+0345 (COMBINING GREEK YPOGEGRAMMENI, script Inherited) although Fold is off`,
 			`C10-foldscript ParseRegexp(`+"`"+`\p{Greek}`+"`"+`, {}) contains U+00B5`)
 	}
 	if v.bytesFoldAny {
